@@ -390,6 +390,12 @@ def derived_oracle(spec):
     if oshape is None:
         require(is_obs(res), 'scalar function did not return an Obs', type(res).__name__)
         rf = combine(lambda v: float(f(np, np.array(v))), list(J), refs)
+        if path == 'num_grad':
+            # finite differences with steps of order 0.1 resolve a gradient only to an absolute accuracy of about 1e-10
+            for n_ in rf.mag:
+                rf.mag[n_] += 1e-3 * max([r.mag.get(n_, 0.0) for r in refs] + [0.0])
+            for n_ in rf.cgmag:
+                rf.cgmag[n_] += 1e-3 * max([r.cgmag.get(n_, 0.0) for r in refs] + [0.0])
         cmp_obs(rf, res, '%s via %s' % (spec['fn'], path), rtol=rtol, atol_scale=1e-12 if rtol < 1e-8 else 1e-7,
                 vtol=1e-11, check_form=True)
     else:
